@@ -17,6 +17,31 @@ def report_of(el):
     return ([impl.canon_err(e) for e in r.errors], [str(w)[:120] for w in r.warnings])
 
 
+# the property's last clause: STRICT never lets an over-long base-datatype value in — judged on the accepted element itself, leaf by
+# leaf, against the maximum length the value's own datatype class declares (`max_length`: ST 199, from 2.6 on 999; IS 20; ...)
+
+
+def overlong_leaves(el):
+    out = []
+
+    def walk(e):
+        if e.classname == 'SubComponent':
+            dt = e.datatype
+            val = e.value
+            txt = getattr(val, 'value', val)
+            mx = getattr(val, 'max_length', None)
+            if isinstance(mx, int) and isinstance(txt, str) and len(txt) > mx:
+                out.append('%s:%s:%d>%d' % (e.parent.name if e.parent is not None else '?', dt, len(txt), mx))
+            return
+        for c in e.children:
+            walk(c)
+    try:
+        walk(el)
+    except Exception as ex:  # noqa
+        out.append('WALK-RAISED:' + vlib.exc_name(ex))
+    return out
+
+
 def both_seg(job):
     """(version, text) -> outcome of parse_segment + to_er7 + validate under STRICT and under TOLERANT"""
     from hl7apy.parser import parse_segment
@@ -29,7 +54,7 @@ def both_seg(job):
             out.append(('exc', vlib.exc_name(e)))
             continue
         try:
-            out.append(('ok', s.to_er7(impl.ec_dict(DEF)), report_of(s)))
+            out.append(('ok', s.to_er7(impl.ec_dict(DEF)), report_of(s), overlong_leaves(s) if strict else []))
         except Exception as e:  # noqa
             out.append(('obsexc', vlib.exc_name(e)))
     return out
@@ -46,7 +71,7 @@ def both_msg(job):
             out.append(('exc', vlib.exc_name(e)))
             continue
         try:
-            out.append(('ok', m.to_er7(), report_of(m)))
+            out.append(('ok', m.to_er7(), report_of(m), overlong_leaves(m) if strict else []))
         except Exception as e:  # noqa
             out.append(('obsexc', vlib.exc_name(e)))
     return out
@@ -80,7 +105,7 @@ def history(job):
             out.append(('exc', failed[0], failed[1]))
             continue
         try:
-            out.append(('ok', s.to_er7(impl.ec_dict(DEF)), report_of(s)))
+            out.append(('ok', s.to_er7(impl.ec_dict(DEF)), report_of(s), overlong_leaves(s) if strict else []))
         except Exception as e:  # noqa
             out.append(('obsexc', -1, vlib.exc_name(e)))
     return out
@@ -155,6 +180,8 @@ def judge(chk, kind, rep, res, d18_possible, table_key=None, dup=False):
     s, t = res
     if s[0] != 'ok':
         return False
+    if len(s) > 3 and s[3]:
+        chk.fail(None, {'clause': 'strict-never-lets-an-over-long-value-in', 'kind': kind, 'leaves': s[3][:6], **rep}, rep)
     if t[0] != 'ok':
         chk.fail(None, {'clause': 'strict-accepted-implies-tolerant-accepted', 'kind': kind, 'tolerant': t, **rep}, rep)
         return True
